@@ -79,12 +79,7 @@ BUDGET = {"quick": 50, "thorough": 400}
 NCASES = {"quick": 6000, "thorough": 120000}
 CASE_TIMEOUT = 30.0
 EVAL_COUNTER = "cases"
-FLOORS = {
-    "quick": {"sound_accepts": 400, "rejected_truly_complex": 320, "complex_value_held": 550, "real_must_raise_raised": 400, "real_value_held": 400,
-              "operands_checked": 4500, "guard_operands_held": 400},
-    "thorough": {"sound_accepts": 8000, "rejected_truly_complex": 7000, "complex_value_held": 11000, "real_must_raise_raised": 8500,
-                 "real_value_held": 7500, "operands_checked": 90000, "guard_operands_held": 8000},
-}
+FLOORS = {'quick': {'sound_accepts': 400, 'rejected_truly_complex': 320, 'complex_value_held': 550, 'real_must_raise_raised': 400, 'real_value_held': 400, 'operands_checked': 4500, 'guard_operands_held': 400}, 'thorough': {'sound_accepts': 8000, 'rejected_truly_complex': 7000, 'complex_value_held': 11000, 'real_must_raise_raised': 8500, 'real_value_held': 7500, 'operands_checked': 90000, 'guard_operands_held': 8000, 'suite:remove_complex_nodes:held': 50}}
 COVER_FLOORS = {
     "quick": {"guards_soundly_accepted": ["LT", "GT", "LE", "GE", "MinValue", "MaxValue"], "hang_probe": ["done"]},
     "thorough": {"guards_soundly_accepted": ["LT", "GT", "LE", "GE", "MinValue", "MaxValue"], "hang_probe": ["done"]},
@@ -1055,3 +1050,14 @@ def run_probes(ctx, names):
             ctx.covered("hang_probe_results", name + ":" + so.strip().splitlines()[-1])
         else:
             ctx.count("hang_probe_died")
+
+
+# ---- additional workload (thorough tier): the calls the repository's own tests make to the two passes; value
+# preservation for real data is judged by the reference interpreter (vf/suitemon.py)
+EXTRA_JOBS = {"thorough": ["suite"]}
+
+
+def extra_suite(ctx):
+    from ..suite_driver import run_suite
+
+    run_suite(ctx, ["remove_complex_nodes", "do_comparison_check"], "C23")
